@@ -261,6 +261,32 @@ func Run(r *ev.Run) {
 		}
 	}
 
+	// ---- bytes that follow the ClientHello message INSIDE the same handshake record (a second, coalesced handshake message or
+	// garbage: the backend will judge them; the Conn must hand them on like every later byte) ----
+	for _, extra := range [][]byte{{0}, {0x14, 0, 0, 0}, {0x0b, 0, 0, 3, 1, 2, 3}, bytes.Repeat([]byte{0xee}, 40)} {
+		for ksi := range ks {
+			for _, exts := range [][]int{{0, 1, 2}, {0, 2, 9}, {0, 4}} {
+				h := helloCase{Version: 0x0303, SID: 32, Exts: exts, KeySet: ksi}.build()
+				stream := tlsref.Record(22, 0x0301, append(h.Msg(), extra...))
+				res := echx.Feed(stream, ks[ksi])
+				replay := map[string]any{"case": fmt.Sprintf("ClientHello followed by %d bytes in the same record", len(extra)), "stream": echx.Hex(stream), "keys": echx.KeysDoc(ks[ksi])}
+				oc := "coalesced-passthrough"
+				switch {
+				case res.Panic != nil:
+					r.Violation("panic:coalesced", fmt.Sprint(res.Panic), replay)
+				case res.Err != nil:
+					oc = "coalesced-refused:" + echx.ErrClass(res.Err) // refusing a record that holds more than the hello is a transparent answer too
+				case res.Accepted:
+					r.Violation("accepted-garbage:coalesced", "ECH accepted", replay)
+				case len(res.Forwarded) != len(stream) || !bytes.Equal(res.Forwarded[3:], stream[3:]):
+					oc = "coalesced-modified"
+					r.Violation("bytes-modified:coalesced", fmt.Sprintf("bytes that follow the ClientHello inside its record were not handed on: forwarded %d bytes, sent %d:\n got  %x\n sent %x", len(res.Forwarded), len(stream), res.Forwarded, stream), replay)
+				}
+				r.Eval(string(stream)+fmt.Sprint("coalesced", ksi), oc)
+			}
+		}
+	}
+
 	// ---- not accepted + HelloRetryRequest from the backend + a second hello that repeats the (GREASE / undecryptable) ECH
 	// extension: still pure pass-through in both directions ----
 	for _, extIdx := range []int{8, 9} {
